@@ -71,6 +71,33 @@ def main():
         os.remove(junit)
         missing = sorted(stable - passed)
         res["stable_pass"] = len(stable)
+        res["first_run_not_passing"] = missing[:20]
+        # a handful of stochastic tests (random probes, xdist order dependent
+        # global seeding) fail occasionally on the clean tree too: re-run each
+        # not-passing test on its own, twice, in the patched tree
+        if 0 < len(missing) <= 6:
+            still = []
+            for m in missing:
+                parts = m.split("::")
+                mod = parts[0].split(".")
+                # classname may include a test class as the last dotted item
+                path = None
+                for cut in range(len(mod), 0, -1):
+                    cand = os.path.join(wt, *mod[:cut]) + ".py"
+                    if os.path.exists(cand):
+                        path = "/".join(mod[:cut]) + ".py"
+                        rest = mod[cut:]
+                        break
+                nodeid = "::".join([path] + rest + parts[1:])
+                okc = 0
+                for _ in range(2):
+                    rr = sh(f"/venv/bin/python -m pytest -q -p no:cacheprovider --timeout=900 '{nodeid}'",
+                            cwd=wt, env=env, timeout=3600)
+                    okc += int(rr.returncode == 0)
+                if okc < 2:
+                    still.append(m)
+            res["rerun_alone_twice_still_failing"] = still
+            missing = still
         res["stable_not_passing"] = missing[:20]
     finally:
         sh("git checkout -- .", cwd=wt)
